@@ -58,6 +58,7 @@ func main() {
 	c.Rule += " (e) failing stop: RemoveEventHandler / GetInformer fail once or twice for kinds a controller watches; after every Stop attempt a controller reported as not running must have a cancelled context and no live handler; Stop retried until nil."
 	c.Rule += " " + "The collector's XR list fails with discovery errors (no watch may be stopped then). Part (f): the production XR reconciler with realtime compositions over the real engine and the real collector: one live handler per referenced kind after every reconcile, none after Stop."
 	c.Rule += " " + "Part (d) also runs a start request for a watch concurrently with the removal of its informer."
+	c.Rule += " " + "(g) one StartWatches call in which a later watch's informer fails; (h) Stop with a reconcile in flight that calls StartWatches (hang judged from the goroutine dump)."
 	c.Assumptions = []string{
 		"fake informers model client-go: handlers die with a removed informer instance, RemoveEventHandler of an unknown handle is a no-op, AddEventHandler on a stopped informer fails",
 		"the fake controller starts a source immediately in Watch (a started controller-runtime controller does the same)",
